@@ -294,10 +294,16 @@ func (w *World) Exec(a Action) (res string, errStr string) {
 	case "WriteAckV2":
 		p := w.realV2(*a.Pkt)
 		ctx := chain.GetContext()
-		cacheCtx, write := ctx.CacheContext()
-		err := chain.App.GetIBCKeeper().ChannelKeeperV2.WriteAcknowledgement(cacheCtx, p.DestinationClient, p.Sequence, v2Ack(a.Ack))
-		if err == nil {
-			write()
+		var err error
+		if a.Direct {
+			// as an application writing from its own block logic: no rollback around the call
+			err = chain.App.GetIBCKeeper().ChannelKeeperV2.WriteAcknowledgement(ctx, p.DestinationClient, p.Sequence, v2Ack(a.Ack))
+		} else {
+			cacheCtx, write := ctx.CacheContext()
+			err = chain.App.GetIBCKeeper().ChannelKeeperV2.WriteAcknowledgement(cacheCtx, p.DestinationClient, p.Sequence, v2Ack(a.Ack))
+			if err == nil {
+				write()
+			}
 		}
 		chain.NextBlock()
 		if err != nil {
